@@ -41,6 +41,7 @@ type world struct {
 	reqs     []*hreq
 	conns    []*wsClient
 	cleanups []func()
+	onWrite  func(i int)
 }
 
 func (w *world) now() int64 { return int64(time.Since(w.start)) }
@@ -176,14 +177,24 @@ type hreq struct {
 	returned bool
 	panicked any
 	writes   int
+	reported bool
+	req      *http.Request
 }
 
 type countingRW struct {
 	*httptest.ResponseRecorder
 	h *hreq
+	w *world
+	i int
 }
 
-func (c *countingRW) WriteHeader(code int) { c.h.writes++; c.ResponseRecorder.WriteHeader(code) }
+func (c *countingRW) WriteHeader(code int) {
+	c.h.writes++
+	if c.w.onWrite != nil {
+		c.w.onWrite(c.i)
+	}
+	c.ResponseRecorder.WriteHeader(code)
+}
 
 // request starts a request against the mux (viaMux) or the engine directly
 // and waits for quiescence; the handler may still be parked (pending poll).
@@ -204,6 +215,8 @@ func (w *world) request(method, target string, hdr http.Header, body []byte, dec
 	for k, v := range hdr {
 		req.Header[k] = v
 	}
+	h.req = req
+	idx := len(w.reqs)
 	w.reqs = append(w.reqs, h)
 	var handler http.Handler = w.srv
 	if viaMux {
@@ -217,7 +230,7 @@ func (w *world) request(method, target string, hdr http.Header, body []byte, dec
 				h.panicked = p
 			}
 		}()
-		handler.ServeHTTP(&countingRW{h.rec, h}, req)
+		handler.ServeHTTP(&countingRW{h.rec, h, w, idx}, req)
 		h.returned = true
 	}()
 	synctest.Wait()
